@@ -165,8 +165,18 @@ def rule_who_may_write(ctx: Ctx, repo: Repo) -> None:
         if fi.qualname in seen:
             return False
         seen.add(fi.qualname)
+        short = fi.qualname.split(".")[-1]
         callers = [g for g in tracer_methods for c in ast.walk(g.node)
-                   if isinstance(c, ast.Call) and isinstance(c.func, ast.Attribute) and c.func.attr == fi.qualname.split(".")[-1] and dotted(c.func.value) == "self"]
+                   if isinstance(c, ast.Call) and isinstance(c.func, ast.Attribute) and c.func.attr == short and dotted(c.func.value) == "self"]
+        # ... or reached through a class-level dispatch table that names the method: whoever reads the table may call it
+        ci_t = fi.cls
+        tables = [a for a, v in (ci_t.attrs.items() if ci_t is not None else []) if any(isinstance(x, ast.Name) and x.id == short for x in ast.walk(v))]
+        for g in tracer_methods:
+            if g is fi:
+                continue
+            for x in ast.walk(g.node):
+                if isinstance(x, ast.Attribute) and x.attr in tables and (dotted(x.value) or "") in ("self", "cls", ci_t.name if ci_t is not None else ""):
+                    callers.append(g)
         return bool(callers) and all(only_from(g, root, seen) for g in callers)
 
     class _Q:
